@@ -237,10 +237,11 @@ def simplify_trace(H):
     clipped = H.case("group_has_clip", (True, False))
     own_tr = H.case("rect_has_transform", (True, False))
     own_clip = H.case("rect_has_clip", (True, False))
+    zero_width = H.case("stroke_width_zero", (False, True)) if stroked else False
     G = Affine2D(*H.reals("g", 6))
     R = Affine2D(*H.reals("r", 6))
     el = lambda tag, attrib=None, children=(): FakeElement(SVGNS + tag, attrib, children)
-    rattr = {"x": "1", "y": "2", "width": "30", "height": "20", "fill-rule": "evenodd", "stroke-width": "3"}
+    rattr = {"x": "1", "y": "2", "width": "30", "height": "20", "fill-rule": "evenodd", "stroke-width": "0" if zero_width else "3"}
     if stroked:
         rattr["stroke"] = "black"
     if own_tr:
@@ -308,9 +309,9 @@ def simplify_trace(H):
     p = (H.real("px"), H.real("py"))
     ctm_rect = (lambda q: map_pt(G, map_pt(R, q))) if own_tr else (lambda q: map_pt(G, q))
     # --- the rect
-    n_paths = 2 if stroked else 1
+    n_paths = 2 if (stroked and not zero_width) else 1
     strokes = [ev for ev in events if ev[0] == "stroke"]
-    H.prove(len(strokes) == (1 if stroked else 0), "simplify.stroke_outlined_once_iff_stroked", detail=str(kinds))
+    H.prove(len(strokes) == (1 if (stroked and not zero_width) else 0), "simplify.stroke_outlined_once_iff_stroked_with_a_width", detail=str(kinds))
     tr_rect = [ev for ev in events if ev[0] == "transform" and ev[1].d != "M0,0 L1,0 L1,1 Z"]
     if tr_rect:
         H.prove(len(tr_rect) == n_paths, "simplify.every_path_of_the_shape_is_placed", detail=str(kinds))
@@ -318,7 +319,7 @@ def simplify_trace(H):
         H.prove(H.close(tuple(ctm_rect(p)), p), "simplify.no_placement_only_if_the_ctm_is_the_identity", detail=str(kinds))
     for ev in tr_rect:
         H.prove(H.close(map_pt(ev[2], p), ctm_rect(p)), "simplify.placed_with_own_transform_first_then_ancestors")
-    if stroked and strokes and tr_rect:
+    if stroked and not zero_width and strokes and tr_rect:
         H.prove(kinds.index("stroke") < min(i for i, ev in enumerate(events) if ev[0] == "transform" and ev in tr_rect), "simplify.stroke_before_transform")
         st = strokes[0][1]
         H.prove(st.d.startswith("M1,2") and getattr(st, "stroke", None) == "black", "simplify.stroke_outlined_in_the_shapes_own_coordinates", detail=st.d)
@@ -711,7 +712,7 @@ def gate_check(H):
     image, deep_text, mask, root_text = el("image", {}), el("text", {}), el("mask", {}), el("text", {})
     inner = el("g", {"opacity": "0.3"}, [el("path", {"d": "M0,0"}), deep_text])
     group = el("g", {"opacity": "0.5"}, [el("path", {"d": "M0,0"}), el("path", {"d": "M1,1"}), image, inner])
-    defs = el("defs", {}, [el("linearGradient", {"id": "g"}, [el("stop", {"offset": "0"})]), mask])
+    defs = el("defs", {}, [el("linearGradient", {"id": "g"}, [el("stop", {"offset": "0", "id": "stopdup"})]), el("linearGradient", {"id": "g_0"}, [el("stop", {"offset": "0", "id": "stopdup"})]), mask])
     root = el("svg", {}, [defs, group, el("path", {"id": "dup", "d": "M0,0"}), el("path", {"id": "dup", "d": "M1,1"}), root_text])
     svg = SVG(root)
     errs, e = H.catch(SVG.checkpicosvg, svg, allow_text=allow_text, drop_unsupported=drop)
@@ -731,7 +732,8 @@ def gate_check(H):
         H.prove(not present(root_text), "gate.text_dropped_without_allow_text", detail=str(errs))
     else:
         H.prove(named("/svg[0]/text[0]"), "gate.text_reported_without_allow_text", detail=str(errs))
-    H.prove(any("reuses id" in s and "dup" in s for s in errs), "gate.reused_id_reported", detail=str(errs))
+    H.prove(any("reuses id" in s and '"dup"' in s for s in errs), "gate.reused_id_reported", detail=str(errs))
+    H.prove(any("reuses id" in s and "stopdup" in s for s in errs), "gate.reused_id_reported_on_gradient_stops_too", detail=str(errs))
     # a conforming tree
     ok_root = el("svg", {}, [el("defs", {}, [el("linearGradient", {"id": "g"}, [el("stop", {"offset": "0"})])]), el("g", {"opacity": "0.5"}, [el("path", {"d": "M0,0"}), el("path", {"d": "M1,1"})]), el("path", {"d": "M2,2"})])
     H.prove(H.call(SVG.checkpicosvg, SVG(ok_root), allow_text=allow_text, drop_unsupported=drop) == (), "gate.conforming_tree_passes")
@@ -785,3 +787,104 @@ def shape_apply_transform(H):
     else:
         H.prove(res.d.replace(" ", "") == "M0,0", "apply_transform.degenerate_matrix_collapses_to_a_point", detail=res.d)
         H.prove(And(det <= eps, -det <= eps), "apply_transform.collapses_only_for_degenerate_matrices")
+
+
+# ------------------------------------------------------------------------------------------------ small parsers and shape spellings (concrete inputs, real code)
+@obligation(("C09", "C04", "C02"), "shape.polygon_polyline", functions=["svg_types.SVGPolygon.as_path", "svg_types.SVGPolyline.as_path"])
+def polygon_polyline(H):
+    """polygon -> "M" + points + " Z": ALWAYS closed, also when the point list repeats its first point at the end (the closing
+    edge gives the start corner a join instead of two caps); polyline -> "M" + points, never closed; no points -> empty path."""
+    from picosvg.svg_types import SVGPolygon, SVGPolyline
+
+    pts = H.case("points", ("30,30 90,30 90,90 30,90", "30,30 90,30 90,90 30,90 30,30", "1 2 3 4", "5,5", ""))
+    poly, line = SVGPolygon(points=pts, stroke="black"), SVGPolyline(points=pts, stroke="black")
+    a, e1 = H.catch(SVGPolygon.as_path, poly)
+    b, e2 = H.catch(SVGPolyline.as_path, line)
+    H.prove(e1 is None and e2 is None, "polygon.no_exception", detail=f"{e1!r} {e2!r}")
+    if e1 is not None or e2 is not None:
+        return
+    cmds_a, cmds_b = [c for c, _ in a], [c for c, _ in b]
+    if pts:
+        n = len(pts.replace(",", " ").split()) // 2
+        H.prove(cmds_a == ["M"] + ["L"] * (n - 1) + ["Z"], "polygon.always_closed_one_segment_per_point", detail=str(cmds_a))
+        H.prove(cmds_b == ["M"] + ["L"] * (n - 1), "polyline.never_closed", detail=str(cmds_b))
+        flat = [float(x) for x in pts.replace(",", " ").split()]
+        H.prove([v for _, args in a for v in args] == flat and [v for _, args in b for v in args] == flat, "polygon.points_kept_in_order")
+        H.prove(a.stroke == "black" and b.stroke == "black", "polygon.paint_carried_over")
+    else:
+        H.prove(cmds_a == [] and cmds_b == [], "polygon.no_points_no_path")
+
+
+@obligation(("C05", "C01", "C18"), "css.declarations", functions=["svg_meta.parse_css_declarations"])
+def css_declarations(H):
+    """parse_css_declarations(style, output): every well-formed `name: value` declaration is written to output; when a
+    property is declared more than once the LAST declaration wins (CSS 2.1 6.4.1); a declaration overrides a value that
+    output already holds; with property_names only the named properties are taken and the rest is returned; white space around
+    names and values is dropped; an empty style changes nothing."""
+    from picosvg.svg_meta import parse_css_declarations
+
+    def run(style, start=None, names=None):
+        out = dict(start or {})
+        rest, e = H.catch(parse_css_declarations, style, out, names) if names is not None else H.catch(parse_css_declarations, style, out)
+        return out, rest, e
+
+    out, rest, e = run("fill:#f00; fill : #00f ;opacity:0.2;stroke:none;opacity:0.8")
+    H.prove(e is None and out == {"fill": "#00f", "opacity": "0.8", "stroke": "none"}, "css.last_declaration_of_a_repeated_property_wins", detail=f"{out} {e!r}")
+    out, rest, e = run("fill:red", {"fill": "blue", "d": "M0,0"})
+    H.prove(e is None and out == {"fill": "red", "d": "M0,0"}, "css.declaration_overrides_the_existing_value", detail=str(out))
+    out, rest, e = run("fill:red;stroke-width:2;font-family:serif", None, {"fill", "stroke-width"})
+    H.prove(e is None and out == {"fill": "red", "stroke-width": "2"} and "font-family" in (rest or ""), "css.only_named_properties_are_taken_the_rest_is_returned", detail=f"{out} {rest!r}")
+    out, rest, e = run("", {"fill": "blue"})
+    H.prove(e is None and out == {"fill": "blue"}, "css.empty_style_changes_nothing")
+    out, rest, e = run(" ; ;fill:red;; ")
+    H.prove(e is None and out == {"fill": "red"}, "css.empty_declarations_are_skipped", detail=f"{out} {e!r}")
+    out, rest, e = run("fill red")
+    H.prove(isinstance(e, ValueError), "css.malformed_declaration_is_ValueError", detail=repr(e))
+
+
+@obligation(("C19", "C02", "C06"), "viewbox.parse", functions=["svg_meta.parse_view_box", "svg.SVG.view_box"])
+def viewbox_parse(H):
+    """parse_view_box reads the four numbers of a viewBox in every spelling the SVG number grammar allows (comma and / or white
+    space separated, leading dot, sign, exponent); anything else is a ValueError; SVG.view_box falls back to width / height."""
+    from picosvg.geometric_types import Rect
+    from picosvg.svg_meta import parse_view_box
+
+    for text, want in (("0 0 24 24", (0, 0, 24, 24)), ("-.5 -.5 12 12", (-0.5, -0.5, 12, 12)), (".5,.5,12,12", (0.5, 0.5, 12, 12)), ("0, 0, 24, 24", (0, 0, 24, 24)), ("+.25 -1e1 1.5E2 3e0", (0.25, -10, 150, 3)),
+                       ("  10\t20\n30 40", (10, 20, 30, 40)), ("-5-5 10 10", None), ("0 0 24", None), ("0 0 24 24 1", None), ("a b c d", None)):
+        r, e = H.catch(parse_view_box, text.strip() if want is not None and text.startswith(" ") else text)
+        if want is None:
+            H.prove(isinstance(e, ValueError), "viewbox.malformed_is_ValueError", detail=f"{text!r}: {r!r} {e!r}")
+        elif ", " in text:
+            # comma followed by white space is valid SVG; picosvg refuses it (ValueError: a rejected document, not a wrong one) -
+            # what must never happen is a silently different rectangle
+            H.prove(isinstance(e, ValueError) or (e is None and tuple(r) == tuple(float(v) for v in want)), "viewbox.never_a_silently_different_rectangle", detail=f"{text!r}: {r!r} {e!r}")
+        else:
+            H.prove(e is None and tuple(r) == tuple(float(v) for v in want), "viewbox.four_numbers_in_every_spelling", detail=f"{text!r}: {r!r} {e!r}")
+    if H.mode == "sym":
+        fake_tree.install(H)
+    mk = (lambda attrib: SVG(FakeElement(SVGNS + "svg", attrib))) if H.mode == "sym" else (lambda attrib: SVG.fromstring('<svg xmlns="http://www.w3.org/2000/svg" ' + " ".join(f'{k}="{v}"' for k, v in attrib.items()) + "/>"))
+    H.prove(H.call(SVG.view_box, mk({"width": "30", "height": "40"})) == Rect(0, 0, 30, 40), "viewbox.falls_back_to_width_and_height")
+    H.prove(H.call(SVG.view_box, mk({"width": "30"})) is None, "viewbox.none_without_viewBox_and_size")
+    H.prove(H.call(SVG.view_box, mk({"viewBox": "1 2 3 4", "width": "30", "height": "40"})) == Rect(1, 2, 3, 4), "viewbox.viewBox_wins_over_width_and_height")
+
+
+
+@obligation(("C18", "C05", "C15"), "element.written_when_it_differs_from_the_inherited_value", functions=["svg.to_element"])
+def to_element_inherited(H):
+    """to_element(shape, **inherited): an attribute is omitted only if it EQUALS the value the element would inherit; a shape
+    that states the initial value (stroke-width 1, fill-opacity 1, fill black) under an ancestor that sets something else -
+    including 0 - keeps its own attribute (otherwise it would inherit the ancestor's and e.g. stop painting)."""
+    from picosvg.svg import to_element
+    from picosvg.svg_types import SVGPath
+
+    if H.mode == "sym":
+        fake_tree.install(H)
+    p = SVGPath(d="M0,0 L1,0 L1,1 Z")  # every presentation field at its initial value
+    for inherited, must_write in (({"stroke-width": "0"}, {"stroke-width": "1"}), ({"fill-opacity": "0"}, {"fill-opacity": "1"}), ({"stroke-opacity": "0", "opacity": "0"}, {"stroke-opacity": "1", "opacity": "1"}),
+                                  ({"fill": "red"}, {"fill": "black"}), ({"fill": "black", "stroke-width": "1"}, {}), ({"stroke-width": "2.5", "fill-rule": "evenodd"}, {"stroke-width": "1", "fill-rule": "nonzero"})):
+        el, e = H.catch(to_element, p, **inherited)
+        H.prove(e is None, "to_element.no_exception", detail=repr(e))
+        if e is not None:
+            continue
+        got = {k: v for k, v in el.attrib.items() if k != "d"}
+        H.prove(got == must_write, "to_element.own_value_written_exactly_when_it_differs_from_the_inherited_one", detail=f"inherited {inherited}: wrote {got}, expected {must_write}")
